@@ -92,14 +92,14 @@ def random_diagram(rng, derived_keys=False, extras=False):
     if rng.random() < 0.5:
         # inside a component nested in the component under test (takes part in no relationship)
         d.classes.append(bp.Cls('Deep inside', 'KN', 98, [bp.Attr('Id', 'unique_id'), bp.Attr('m', 'string')],
-                                [['Id']], where='nested'))
+                                [['Id']], where=rng.choice(('nested', 'deep'))))
     numb = 0
     for _ in range(rng.randint(1, 5)):
         numb += rng.randint(1, 3)
         kind = rng.choice(('simple', 'simple', 'linked', 'subsuper'))
 
         def pick(where=None):
-            cs = [c for c in d.classes if c.where not in ('comp2', 'nested') and (where is None or c.where == where)]
+            cs = [c for c in d.classes if c.where not in ('comp2', 'nested', 'deep') and (where is None or c.where == where)]
             return rng.choice(cs) if cs else None
 
         def ends():
@@ -128,7 +128,7 @@ def random_diagram(rng, derived_keys=False, extras=False):
             if len(d.classes) < 2:
                 continue
             link = pick()
-            others = [c for c in d.classes if c is not link and c.where not in ('comp2', 'nested') and (link.where != 'comp' or c.where == 'comp')]
+            others = [c for c in d.classes if c is not link and c.where not in ('comp2', 'nested', 'deep') and (link.where != 'comp' or c.where == 'comp')]
             if not others:
                 continue
             one, other = rng.choice(others), rng.choice(others)
@@ -144,7 +144,7 @@ def random_diagram(rng, derived_keys=False, extras=False):
                 continue
             sup = pick()
             subs = [c for c in d.classes if c is not sup and (c.where == sup.where or sup.where == 'pkg' and False)]
-            subs = [c for c in d.classes if c is not sup and c.where == sup.where and c.where not in ('comp2', 'nested')]
+            subs = [c for c in d.classes if c is not sup and c.where == sup.where and c.where not in ('comp2', 'nested', 'deep')]
             if not subs:
                 continue
             chosen = rng.sample(subs, min(len(subs), rng.randint(1, 2)))
@@ -229,7 +229,7 @@ def edit(rng, d):
         if not free:
             return None
         c = rng.choice(free)
-        c.where = rng.choice([w for w in ('pkg', 'comp', 'comp2', 'nested') if w != c.where])
+        c.where = rng.choice([w for w in ('pkg', 'comp', 'comp2', 'nested', 'deep') if w != c.where])
         return ('move', c.kl, c.where)
     return None
 
